@@ -99,6 +99,7 @@ def handle (f : List String) : String :=
     let g := match d.s.applied.getLast? with | some l => l | none => 0
     s!"log={log} {",".intercalate d.obs} g={g} n={d.s.applied.length}"
   | "rename" :: _ => "-"
+  | "conc" :: _ => "-"
   | _ => "bad-case"
 
 end MtailVerif.Driver.C20
